@@ -19,7 +19,7 @@ mod variables;
 pub use codegen::InstructionBuilder;
 pub use modules::ModuleCache;
 pub use provenance::{Narrowings, Provenance};
-pub use scopes::{Binding, Parameter, Scope, ScopeKind};
+pub use scopes::{Binding, Parameter, Scope, ScopeKind, type_alias_key};
 pub use typing::{TupleAccessor, TypeAliasDef, resolve_type_alias_for_display, union_type_ids};
 
 /// Verification hook (cargo feature `verif`, off by default): re-exports the narrowing helpers so
